@@ -238,8 +238,15 @@ pub fn gen04(rng: &mut Rng, tier: &str) -> String {
 }
 
 pub fn gen06(rng: &mut Rng, tier: &str) -> String {
-    let k = *rng.pick(&[4usize, 5, 5, 6, 6, 8, 12, 16]);
-    let reads = gen_reads(rng, k, if tier == "thorough" { 10 } else { 5 }, 60);
+    let k = *rng.pick(&[4usize, 5, 5, 6, 6, 8, 12, 16, 33, 41]);
+    let mut reads = gen_reads(rng, k, if tier == "thorough" { 10 } else { 5 }, 60);
+    if k % 2 == 1 && rng.chance(1, 3) {
+        // odd K: a read through a k-mer `X m rc(X)` (equal to its reverse complement everywhere but in the middle base)
+        let h = k / 2 + rng.below(4);
+        let x: Vec<u8> = (0..h).map(|_| rng.below(4) as u8).collect();
+        let mut r = x.clone(); r.push(rng.below(4) as u8); r.extend(rc_of(&x));
+        reads.push(r);
+    }
     let mask: Vec<usize> = (0..reads.len()).filter(|_| rng.chance(1, 2)).collect();
     format!("C06 rcsym {} {} {} {} {}", k, rng.chance(1, 3) as u8, *rng.pick(&[1usize, 1, 2]), show_nat_list(&mask), show_reads(&reads, rng, false))
 }
@@ -287,6 +294,29 @@ fn gen19_k<K: Kmer + Send + Sync>(rng: &mut Rng, k: usize, stranded: bool) -> St
         for sq in seqs.iter().rev().take(3) {
             probes.push(format!("{}@{}", show_digits(&sq[..k]), if rng.chance(1, 2) { "L" } else { "R" }));
             probes.push(format!("{}@{}", show_digits(&sq[sq.len() - k..]), if rng.chance(1, 2) { "L" } else { "R" }));
+        }
+        if !items.is_empty() { nodes = items.join(","); }
+    }
+    if k > 32 && rng.chance(1, 3) {
+        // wide k-mers (two storage words): two further nodes whose first (or last) k-mers are twins - `P M Q` and `Q M P` with
+        // |P| = |Q| = K - 32, the part of the k-mer that lies in the upper word - so that their words are permutations of each other's pieces
+        let mut seqs: Vec<Vec<u8>> = if nodes == "-" { vec![] } else { nodes.split(',').map(|x| digits(x.split(':').next().unwrap())).collect() };
+        let mut items: Vec<String> = if nodes == "-" { vec![] } else { nodes.split(',').map(|x| x.to_string()).collect() };
+        let m = k - 32;
+        let rnd = |rng: &mut Rng, l: usize| -> Vec<u8> { (0..l).map(|_| rng.below(4) as u8).collect() };
+        let (p, mid, q) = (rnd(rng, m), rnd(rng, k - 2 * m), rnd(rng, m));
+        let a: Vec<u8> = [p.clone(), mid.clone(), q.clone()].concat();
+        let b: Vec<u8> = [q, mid, p].concat();
+        let at_start = rng.chance(1, 2);
+        for km in [a, b] {
+            let extra = rng.range(0, 5);
+            let t = rnd(rng, extra);
+            let v: Vec<u8> = if at_start { [km.clone(), t].concat() } else { [t, km.clone()].concat() };
+            if seqs.iter().all(|s| s[..k] != v[..k] && s[s.len() - k..] != v[v.len() - k..]) {
+                items.push(format!("{}:{:02x}:{}", show_digits(&v), rng.below(256), items.len()));
+                probes.push(format!("{}@{}", show_digits(&km), if rng.chance(1, 2) { "L" } else { "R" }));
+                seqs.push(v);
+            }
         }
         if !items.is_empty() { nodes = items.join(","); }
     }
